@@ -48,12 +48,17 @@ def replay_fsync_order(inputs, obl):
             others = [e[1] for e in events if e[0] == 'open-w' and e[1] != target]
             if others:
                 problems.append(f"set({key!r}) opened other paths for writing: {others[:2]}")
-            if not os.path.isfile(target) or builtins.open(target, 'rb').read() != want:
+            if not os.path.isfile(target):
+                problems.append(f"set({key!r}) returned but its file does not exist")
+            elif builtins.open(target, 'rb').read() != want:
                 problems.append(f"set({key!r}): file contents differ from the serialised value")
         kv2 = KeyValueStorage(d)
         for key, val in vals.items():
-            if kv2.get(key) != val:
-                problems.append(f"reopened store reads {key!r} wrongly")
+            try:
+                if kv2.get(key) != val:
+                    problems.append(f"reopened store reads {key!r} wrongly")
+            except Exception as e:
+                problems.append(f"reopened store fails on {key!r}: {type(e).__name__}")
         if problems:
             return dict(confirmed=True, detail='; '.join(problems[:3]))
         return dict(confirmed=False, detail="every set fsynced the complete value of its own file only")
